@@ -38,6 +38,7 @@ type c16Step struct {
 	canTransfer bool
 	callee      string
 	preq        uint64
+	paddr       uint64
 	isReward    bool
 	retLen      uint64
 	suicided    bool
@@ -57,6 +58,7 @@ type c16Tracer struct {
 	bCanTransfer bool
 	bCallee      string
 	bPreq        uint64
+	bPaddr       uint64
 	bReward      bool
 	badDepth     string
 }
@@ -65,18 +67,30 @@ func isCallFamily(op byte) bool {
 	return op == opCALL || op == opCALLCODE || op == opDELEGATECALL || op == opSTATICCALL
 }
 
-func (t *c16Tracer) classify(addr common.Address, input func() []byte) (callee string, preq uint64, reward bool) {
+// c16PreWrites: address -> declared state-modifying (vm.VerifPrecompiles)
+var c16PreWrites = func() map[uint64]bool {
+	m := map[uint64]bool{}
+	for _, p := range vm.VerifPrecompiles() {
+		m[p.Addr] = p.WritesState
+	}
+	return m
+}()
+
+// classify returns the callee class, the precompile address, its RequiredGas and whether the code
+// declares it state-modifying.
+func (t *c16Tracer) classify(addr common.Address, input func() []byte) (callee string, paddr uint64, preq uint64, writes bool) {
 	if p := vm.PrecompiledContracts[addr]; p != nil {
-		return "pre", p.RequiredGas(input()), addr == params.TermRewardContract
+		a := addr.Big().Uint64()
+		return "pre", a, p.RequiredGas(input()), c16PreWrites[a]
 	}
 	code, err := t.am.GetAccount(addr).GetCode()
 	if err != nil {
-		return "loadfail", 0, false
+		return "loadfail", 0, 0, false
 	}
 	if len(code) == 0 {
-		return "empty", 0, false
+		return "empty", 0, 0, false
 	}
-	return "code", 0, false
+	return "code", 0, 0, false
 }
 
 func (t *c16Tracer) begin(w *c16World, cs *c16Case, am *account.Manager) {
@@ -87,9 +101,9 @@ func (t *c16Tracer) begin(w *c16World, cs *c16Case, am *account.Manager) {
 	switch cs.Entry {
 	case "call":
 		t.bCanTransfer = am.GetAccount(cs.Caller).GetBalance().Cmp(value) >= 0
-		t.bCallee, t.bPreq, t.bReward = t.classify(cs.Target, func() []byte { return cs.input })
+		t.bCallee, t.bPaddr, t.bPreq, t.bReward = t.classify(cs.Target, func() []byte { return cs.input })
 	case "static":
-		t.bCallee, t.bPreq, t.bReward = t.classify(cs.Target, func() []byte { return cs.input })
+		t.bCallee, t.bPaddr, t.bPreq, t.bReward = t.classify(cs.Target, func() []byte { return cs.input })
 	case "create":
 		t.bCanTransfer = am.GetAccount(cs.Caller).GetBalance().Cmp(value) >= 0
 		switch {
@@ -153,7 +167,7 @@ func (t *c16Tracer) CaptureState(env *vm.EVM, pc uint64, op vm.OpCode, gas, cost
 				inOff, inSize = stack.Back(3), stack.Back(4)
 			}
 			if err == nil {
-				s.callee, s.preq, s.isReward = t.classify(addr, func() []byte { return memory.Get(inOff.Int64(), inSize.Int64()) })
+				s.callee, s.paddr, s.preq, s.isReward = t.classify(addr, func() []byte { return memory.Get(inOff.Int64(), inSize.Int64()) })
 			}
 		}
 	case b == opCREATE:
@@ -271,7 +285,7 @@ func (t *c16Tracer) emit(c *Ctx, cs *c16Case, res c16Result) {
 	if t.bReward && pok {
 		pw = 1
 	}
-	c.Op(fmt.Sprintf("begin %s %d %d %d %s %d %d %d", cs.Entry, cs.Gas, b01(cs.Value != 0), b01(t.bCanTransfer), orNone(t.bCallee), t.bPreq, b01(pok), pw), "ok")
+	c.Op(fmt.Sprintf("begin %s %d %d %d %s %d %d %d %d", cs.Entry, cs.Gas, b01(cs.Value != 0), b01(t.bCanTransfer), orNone(t.bCallee), t.bPaddr, t.bPreq, b01(pok), pw), "ok")
 	for i := range t.steps {
 		s := &t.steps[i]
 		var next *c16Step
@@ -309,8 +323,8 @@ func (t *c16Tracer) emit(c *Ctx, cs *c16Case, res c16Result) {
 		if s.req != nil {
 			req = s.req.String()
 		}
-		line := fmt.Sprintf("s %d %d %d %d %d %d %d %d %d %s %d %s %d %d %d", s.op, s.stackLen, cost, b01(s.err == "gasoverflow"), b01(gasErr), b01(s.fault == "exec"),
-			w, s.retLen, b01(s.value), req, b01(s.canTransfer), s.callee, s.preq, b01(spok), spw)
+		line := fmt.Sprintf("s %d %d %d %d %d %d %d %d %d %s %d %s %d %d %d %d", s.op, s.stackLen, cost, b01(s.err == "gasoverflow"), b01(gasErr), b01(s.fault == "exec"),
+			w, s.retLen, b01(s.value), req, b01(s.canTransfer), s.callee, s.paddr, s.preq, b01(spok), spw)
 		verdict := "ok"
 		switch {
 		case s.err != "":
@@ -386,6 +400,15 @@ func c16EmitTable(c *Ctx, w *c16World) {
 	for _, p := range ps {
 		c.Op(fmt.Sprintf("param %s %d", p.k, p.v), "ok")
 	}
+	pres := vm.VerifPrecompiles()
+	var writing []string
+	for _, p := range pres {
+		c.Op(fmt.Sprintf("pre %d %d", p.Addr, b01(p.WritesState)), "ok")
+		if p.WritesState {
+			writing = append(writing, fmt.Sprint(p.Addr))
+		}
+	}
+	c.Op(fmt.Sprintf("precount %d", len(pres)), "ok")
 	var sb strings.Builder
 	sb.WriteString("/-\n  GENERATED by `VERIF_C16_GEN=<this file> hx c16` from the jump table that\n  vm.NewInterpreter installs (hook chain/vm/verif_table.go). Do not edit: `hx c16` prints the\n  live table as its first op lines and the driver answers `table-mismatch` on any difference.\n-/\n")
 	sb.WriteString("import LemoModel.Evm\nnamespace LemoModel.EvmTable\nopen LemoModel.Evm\n\n")
@@ -396,7 +419,15 @@ func c16EmitTable(c *Ctx, w *c16World) {
 		}
 		fmt.Fprintf(&sb, "%s := %d", p.k, p.v)
 	}
-	sb.WriteString(" }\n\n/-- columns: valid minStack maxStack writes halts reverts jumps returns hasMem minGas -/\ndef rows : List OpInfo := [\n")
+	fmt.Fprintf(&sb, ",\n    writingPre := [%s],\n    guardPre := true", strings.Join(writing, ", "))
+	sb.WriteString(" }\n\n/-- precompile addresses installed in vm.PrecompiledContracts -/\ndef precompiles : List Nat := [")
+	for i, p := range pres {
+		if i > 0 {
+			sb.WriteString(", ")
+		}
+		fmt.Fprint(&sb, p.Addr)
+	}
+	sb.WriteString("]\n\n/-- columns: valid minStack maxStack writes halts reverts jumps returns hasMem minGas -/\ndef rows : List OpInfo := [\n")
 	valid := 0
 	for i, o := range tab {
 		if o.Valid {
